@@ -74,6 +74,14 @@ def check_mask_seed(prog, res):
                 n += 1
                 ok = seed is not None and (int_val(seed) == 1 or _macro(seed) in ("wordLeq01", "wordGeq01"))
                 what = "none" if seed is None else (_macro(seed) or show(seed)[:30])
+                # per word the mask is (mask & eq) | less: the `&=` comes first (the other order keeps the mask only
+                # while all words are equal)
+                order = [("and" if x["op"] == "&=" else "or") for x in walk(st)
+                         if x.get("k") == "Bin" and x["op"] in ("&=", "|=") and strip(x["x"]).get("k") == "Ref" and
+                         strip(x["x"])["id"] == mv["id"] and _macro(x["y"]) in ("wordEq01", "wordLess01")]
+                if ok and order[:2] != ["and", "or"]:
+                    ok = False
+                    what = "%s, but updated as (mask | less) & eq" % what
                 if ok:
                     res.proved("R05.2-comparison-mask-covers-equality", function=f.name, file=f.relfile, line=line or st.get("l"),
                                construct="mask seeded with %s" % what, detail="X = M yields mask 1: the modulus is subtracted")
